@@ -90,6 +90,30 @@ theorem syncStep_write_changes (c : Ctx) : (syncStep c).writes ≠ c.writes → 
       simp at this
       exact h this
 
+/-- **C01 / C02 / C11** — whenever `runBatchRelease` leaves a BatchRelease whose batch partition differs from the stored one,
+    the acknowledgement of the plan (`hashSame`) is withdrawn: the Rollout will not take the executor's old "ready" for the
+    new partition (`doCanaryUpgrade` waits for `hashSame ∧ genObserved`). -/
+theorem runBatchRelease_partition_change_unack (ro : Rollout) (b b' : BR) (id : String) (idx : Int) (rb : Bool)
+    (h : (runBatchRelease ro (some b) id idx rb).2.1 = some b') (hp : b'.partition ≠ b.partition) : b'.hashSame = false := by
+  unfold runBatchRelease at h
+  dsimp only at h
+  by_cases he : brSpecEq b (desiredBR ro id (idx - 1) rb) = true
+  · simp only [he, if_true, Option.some.injEq] at h
+    subst h; exact absurd rfl hp
+  · simp only [he, Bool.false_eq_true, if_false, Option.some.injEq] at h
+    subst h; rfl
+
+/-- the same for `finalizingBatchRelease` (the partition is removed) -/
+theorem finalizingBatchRelease_partition_change_unack (b b' : BR) (waitReady : Bool)
+    (h : (finalizingBatchRelease (some b) waitReady).2.1 = some b') (hp : b'.partition ≠ b.partition) : b'.hashSame = false := by
+  unfold finalizingBatchRelease at h
+  dsimp only at h
+  split at h
+  · simp only [Option.some.injEq] at h; subst h; exact absurd rfl hp
+  · split at h
+    · simp only [Option.some.injEq] at h; subst h; exact absurd rfl hp
+    · simp only [Option.some.injEq] at h; subst h; rfl
+
 /-! non-vacuity: each write really occurs -/
 example : (runBatchRelease { (default : Rollout) with steps := [{ replicas := .pct 20, weight := none, pause := .manual }] } none "v2" 1 false).2.2 = ["createBR"] := by decide
 example : (removeBatchRelease (some { (default : BR) with deleting := false })).2.2 = ["deleteBR"] := by decide
